@@ -5,7 +5,7 @@ cd "$(dirname "$0")"
 HERE="$(pwd)"
 export CARGO_NET_OFFLINE=true
 ( cd harness && cargo build --release -p vcheck )
-# the jet1090 binary with the verification driver (C12, C17) and decode1090 (C10 thorough)
+# the jet1090 binary with the verification driver (C12, C17), decode1090 (C10, C06) and the Python binding (C06)
 JETCFG=(--config 'profile.dev.package."*".opt-level=2' --config 'profile.dev.package.rs1090.opt-level=2' --config 'profile.dev.debug=false')
-( cd /repo && RUSTFLAGS="--cfg xoolive_rs1090_verif" CARGO_TARGET_DIR="$HERE/target-jet" cargo build -p jet1090 -p decode1090 --offline "${JETCFG[@]}" )
+( cd /repo && RUSTFLAGS="--cfg xoolive_rs1090_verif" CARGO_TARGET_DIR="$HERE/target-jet" PYO3_PYTHON="$(command -v python3)" cargo build -p jet1090 -p decode1090 -p rs1090-python --offline "${JETCFG[@]}" )
 echo "setup ok"
